@@ -874,5 +874,6 @@ func init() {
 		vTextLockCases(rand.New(rand.NewSource(seed+2)), out, mon, n)
 		vTextKeyOpCases(rand.New(rand.NewSource(seed+3)), out, mon, n)
 		vTextResultCases(rand.New(rand.NewSource(seed+4)), out, mon, n)
+		vTextRespCases(rand.New(rand.NewSource(seed+5)), out, mon, n)
 	}
 }
